@@ -1,128 +1,124 @@
-(* Finding F3 (C03): for a NEGATIVE signal polar angle try_new_optimum multiplies asin(val) — which already carries the sign
-   of the angle — by signum(theta_s) again.  The idler's transverse direction then has the wrong sign: the idler is the mirror
-   image of the momentum-closing direction, on the signal's side, and the property's momentum clause fails.
-   These lemmas are about the faithful (translated) model; they are not part of any property's obligations. *)
+(* Finding F3 (C03) — FIXED in /repo 4e30e73.  Historical record, against a pinned copy of the formula try_new_optimum had
+   before the fix: for a NEGATIVE signal polar angle it multiplied asin(val) — which already carries the sign of the angle —
+   by signum(theta_s) again.  The idler's transverse direction then had the wrong sign: the idler was the mirror image of the
+   momentum-closing direction, on the signal's side, for EVERY negative angle.  (With the factor dropped the clause holds for
+   both signs: Props/C03.v, C03_parallel.)   Not part of any property's obligations. *)
 From Coq Require Import Reals Lra Lia ZArith Bool.
-From SpdVerif Require Import Base.Rx Base.Vec3 Gen.Idler Model.Idler Proofs.C03_base Proofs.C03_idler Proofs.C03_sign Proofs.C03_all.
+From SpdVerif Require Import Base.Rx Base.Vec3 Gen.Idler Model.Idler Proofs.C03_base Proofs.C03_idler Proofs.C03_all.
 Local Open Scope R_scope.
 
-(* every negative angle fails: co-propagating setup, closing vector forward, non-zero signal index *)
-Lemma C03_parallel_neg_all index pm spol ppol phis ths ls lp ws wp pp i :
-  0 < lp -> 0 < ls -> pp_defined pp -> - (PI / 2) < ths < 0 ->
-  n_s index spol phis ths ls ws <> 0 ->
-  0 < vz (closing_vector index (sigb spol phis ths ls ws) (pumpb ppol lp wp) pp) ->
-  optimum_idler index pm false (sigb spol phis ths ls ws) (pumpb ppol lp wp) pp = Some i ->
-  vcross (b_dir i) (closing_vector index (sigb spol phis ths ls ws) (pumpb ppol lp wp) pp) <> vzero.
+(* the translation of the old source text (Gen/Idler.v as generated before 4e30e73), pinned *)
+Definition idler_theta_old (counter_propagation : bool) (theta_s val : R) : R :=
+  (((if (bool_dec (xorb (if Rlt_dec (signum (cos (theta_s / 1))) 0 then true else false) (if (bool_dec counter_propagation true) then true else false)) true) then (PI - (asin val)) else (asin val)) * (signum (theta_s / 1))) * 1).
+
+Lemma idler_theta_old_forward cp th v : 0 < cos th ->
+  idler_theta_old cp th v = (if cp then PI - asin v else asin v) * signum th.
 Proof.
-  intros Hlp Hls Hpp Hth Hn Hz Hs.
-  assert (Hth' : - (PI / 2) < ths < PI / 2) by (pose proof PI_RGT_0; lra).
-  destruct (some_inv index pm spol ppol phis ths ls lp ws wp pp Hlp Hls false i Hs) as [Hlt ->].
-  pose proof (idler_mirror_negative index pm spol ppol phis ths ls lp ws wp pp false Hls Hlp (range_pi ths Hth') Hpp
-                (cos_pos_of_range ths Hth') eq_refl (proj2 Hth) Hz) as Hm.
-  cbv zeta in Hm.
-  pose proof (Kq_pos ths ls Hls (range_pi ths Hth')) as HK.
-  assert (Hz' : 0 < Kq ls * w_z index spol ppol phis ths ls lp ws wp pp)
-    by (rewrite <- (closing_z index spol ppol phis ths ls lp ws wp pp Hls Hlp Hpp); exact Hz).
-  assert (Hw : 0 < w_z index spol ppol phis ths ls lp ws wp pp) by nra.
-  pose proof (closing_unit index spol ppol phis ths ls lp ws wp pp Hls Hlp (range_pi ths Hth') Hpp (Rgt_not_eq _ _ Hw)) as Hu.
-  destruct (closing_nonzero index spol ppol phis ths ls lp ws wp pp Hlp Hls Hpp Hth' (Rgt_not_eq _ _ Hz)) as [Hn2 Hd].
-  destruct Hd as (_ & Ha & _).
-  set (q := closing_vector index (sigb spol phis ths ls ws) (pumpb ppol lp wp) pp) in *.
-  assert (Hnp : 0 < vnorm q) by (apply sqrt_lt_R0; exact Hn2).
-  (* q = |q| qh *)
-  assert (Hqq : q = vscale (vnorm q) (vscale (/ vnorm q) q)).
-  { destruct q as [[a b] c]. vec_cmp; field; lra. }
-  set (qh := vscale (/ vnorm q) q) in *.
-  set (nq := vnorm q) in *.
-  clearbody qh nq.
-  intros Hc. rewrite Hm in Hc. rewrite Hqq in Hc. rewrite Hu in Hc.
-  (* x and y components of the cross product: -2 |q| qh_y qh_z and 2 |q| qh_x qh_z *)
-  assert (Hx := f_equal vx Hc). assert (Hy := f_equal vy Hc).
-  unfold vcross, vscale, vzero, vx, vy, vz in Hx, Hy; cbn [fst snd] in Hx, Hy.
-  set (a := opt_arg index (sigb spol phis ths ls ws) (pumpb ppol lp wp) pp) in *.
-  set (w := w_z index spol ppol phis ths ls lp ws wp pp) in *.
-  assert (Hsa : 0 < sqrt a) by (apply sqrt_lt_R0; exact Ha).
-  assert (Hwa : 0 < w / sqrt a) by (apply Rdiv_lt_0_compat; assumption).
-  assert (Hv : opt_val index (sigb spol phis ths ls ws) (pumpb ppol lp wp) pp <> 0).
-  { rewrite (opt_val_eq index spol ppol phis ths ls lp ws wp pp (range_pi ths Hth')).
-    fold a. unfold u_t.
-    assert (sin ths < 0) by (apply sin_lt_0_var; pose proof PI_RGT_0; lra).
-    intros E. apply Rmult_integral in E. destruct E as [E|E].
-    - apply Rmult_integral in E. destruct E; lra.
-    - pose proof (Rinv_0_lt_compat _ Hsa). lra. }
-  set (v := opt_val index (sigb spol phis ths ls ws) (pumpb ppol lp wp) pp) in *.
-  (* from Hx: v sin phi = 0; from Hy: v cos phi = 0 *)
-  set (t := w / sqrt a) in *. clearbody t.
-  assert (Hnt : 0 < nq * t) by (apply Rmult_lt_0_compat; assumption).
-  assert (Hsx : v * sin phis = 0).
-  { apply Rmult_eq_reg_r with (2 * (nq * t)); [|lra]. rewrite Rmult_0_l, <- Hx. ring. }
-  assert (Hcx : v * cos phis = 0).
-  { apply Rmult_eq_reg_r with (- (2 * (nq * t))); [|lra]. rewrite Rmult_0_l, <- Hy. ring. }
-  pose proof (sin2_cos2 phis) as H1. unfold Rsqr in H1.
-  assert (v * v = 0) by (replace (v * v) with ((v * sin phis) * (v * sin phis) + (v * cos phis) * (v * cos phis)) by (rewrite <- (Rmult_1_r (v * v)), <- H1; ring); rewrite Hsx, Hcx; ring).
-  apply Hv. nra.
+  intros Hc. unfold idler_theta_old. rewrite !Rdiv_1, Rmult_1_r.
+  rewrite (signum_pos (cos th)) by lra.
+  destruct (Rlt_dec 1 0) as [H|H]; [lra|]. destruct cp; cbn; reflexivity.
 Qed.
 
-(* a concrete witness: constant index 3/2, pump wavelength 1, signal wavelength 2 (any unit), signal polar angle -1/10, no poling.
-   Known x := signal polar angle < 0. *)
-Lemma C03_parallel_neg_refuted :
-  exists (index : R -> vec -> polarization -> R) pm spol ppol phis ths ls lp ws wp pp i,
-    (0 < lp < ls /\ pp_defined pp /\ - (PI / 2) < ths < PI / 2) /\
-    ths < 0 /\
-    0 < vz (closing_vector index (beam_new spol phis ths ls ws) (pump_new ppol lp wp) pp) /\
-    optimum_idler index pm false (beam_new spol phis ths ls ws) (pump_new ppol lp wp) pp = Some i /\
-    vcross (b_dir i) (closing_vector index (beam_new spol phis ths ls ws) (pump_new ppol lp wp) pp) <> vzero.
+Lemma idler_theta_old_neg th v : 0 < cos th -> th < 0 -> -1 <= v <= 1 ->
+  sin (idler_theta_old false th v) = - v /\ cos (idler_theta_old false th v) = sqrt (1 - v²).
 Proof.
-  set (index := fun (_ : R) (_ : vec) (_ : polarization) => 3 / 2).
-  assert (Hth : - (PI / 2) < - (1 / 10) < PI / 2) by (pose proof PI_RGT_0; pose proof PI2_3_2; unfold PI2 in *; lra).
-  assert (Hz : 0 < vz (closing_vector index (sigb Ordinary 0 (- (1 / 10)) 2 (1, 1)) (pumpb Ordinary 1 (1, 1)) PPOff)).
-  { rewrite (closing_z index Ordinary Ordinary 0 (- (1 / 10)) 2 1 (1, 1) (1, 1) PPOff ltac:(lra) ltac:(lra) I).
-    apply Rmult_lt_0_compat; [apply (Kq_pos (- (1 / 10)) 2 ltac:(lra) (range_pi _ Hth))|].
-    unfold w_z, n_p, n_s, kpp, refractive_index, beam_refractive_index, index, pp_k_pp. pose proof (COS_bound (- (1 / 10))). lra. }
-  assert (Hs : optimum_idler index Type2_e_eo false (sigb Ordinary 0 (- (1 / 10)) 2 (1, 1)) (pumpb Ordinary 1 (1, 1)) PPOff =
-               Some (idler_b index Type2_e_eo Ordinary Ordinary 0 (- (1 / 10)) 2 1 (1, 1) (1, 1) PPOff false)).
-  { apply (optimum_idler_some index Type2_e_eo Ordinary Ordinary 0 (- (1 / 10)) 2 1 (1, 1) (1, 1) PPOff); lra. }
-  assert (Hc : vcross (b_dir (idler_b index Type2_e_eo Ordinary Ordinary 0 (- (1 / 10)) 2 1 (1, 1) (1, 1) PPOff false))
-                      (closing_vector index (sigb Ordinary 0 (- (1 / 10)) 2 (1, 1)) (pumpb Ordinary 1 (1, 1)) PPOff) <> vzero).
-  { apply (C03_parallel_neg_all index Type2_e_eo Ordinary Ordinary 0 (- (1 / 10)) 2 1 (1, 1) (1, 1) PPOff); try lra; try exact I; try assumption.
-    unfold n_s, refractive_index, beam_refractive_index, index. lra. }
-  exists index, Type2_e_eo, Ordinary, Ordinary, 0, (- (1 / 10)), 2, 1, (1, 1), (1, 1), PPOff,
-    (idler_b index Type2_e_eo Ordinary Ordinary 0 (- (1 / 10)) 2 1 (1, 1) (1, 1) PPOff false).
-  split; [split; [lra | split; [exact I | exact Hth]]|].
-  split; [lra|]. split; [exact Hz|]. split; [exact Hs | exact Hc].
+  intros Hc Hn Hv. rewrite idler_theta_old_forward by assumption. rewrite signum_neg by assumption.
+  replace (asin v * -1) with (- asin v) by ring. rewrite sin_neg, cos_neg, sin_asin, cos_asin by assumption. split; reflexivity.
 Qed.
 
-(* ---------------------------------------------------------------- the proposed patch: drop the second sign
-   theta = if backward then PI - asin(val) else asin(val)   (asin already has the sign of the signal angle).
-   With it the idler direction is the unit closing vector for EVERY signal polar angle in (-pi/2, pi/2). *)
-Definition idler_theta_patched (cp : bool) (v : R) : R := if cp then PI - asin v else asin v.
+Section Old.
+  Variable index : R -> vec -> polarization -> R.
+  Variables (pm : pm_type) (spol ppol : polarization) (phis ths ls lp : R) (ws wp : R * R) (pp : poling).
+  Hypothesis Hlp : 0 < lp.
+  Hypothesis Hls : 0 < ls.
+  Hypothesis Hpp : pp_defined pp.
+  Hypothesis Hth : - (PI / 2) < ths < 0.
 
-Lemma C03_patch_closes_triangle index pm spol ppol phis ths ls lp ws wp pp :
-  0 < lp -> 0 < ls -> pp_defined pp -> - (PI / 2) < ths < PI / 2 ->
-  0 < vz (closing_vector index (sigb spol phis ths ls ws) (pumpb ppol lp wp) pp) ->
-  b_dir (beam_new (idler_polarization pm) (idler_phi (b_phi (sigb spol phis ths ls ws)))
-                  (idler_theta_patched false (opt_val index (sigb spol phis ths ls ws) (pumpb ppol lp wp) pp))
-                  (idler_wavelength (b_lambda (sigb spol phis ths ls ws)) (b_lambda (pumpb ppol lp wp))) (b_waist (sigb spol phis ths ls ws)))
-  = vscale (/ vnorm (closing_vector index (sigb spol phis ths ls ws) (pumpb ppol lp wp) pp))
-           (closing_vector index (sigb spol phis ths ls ws) (pumpb ppol lp wp) pp).
+  Notation signal := (sigb spol phis ths ls ws).
+  Notation pump := (pumpb ppol lp wp).
+  Notation q := (closing_vector index signal pump pp).
+
+  (* the idler the old code produced *)
+  Definition idler_old : beam :=
+    beam_new (idler_polarization pm) (idler_phi (b_phi signal))
+             (idler_theta_old false (b_theta signal) (opt_val index signal pump pp))
+             (idler_wavelength (b_lambda signal) (b_lambda pump)) (b_waist signal).
+
+  Lemma Hth' : - (PI / 2) < ths < PI / 2.
+  Proof. pose proof PI_RGT_0. lra. Qed.
+
+  (* closing vector forward: the old idler is the mirror image (transverse part flipped) of the unit closing vector *)
+  Lemma old_idler_mirror : 0 < vz q ->
+    b_dir idler_old = (- vx (vscale (/ vnorm q) q), - vy (vscale (/ vnorm q) q), vz (vscale (/ vnorm q) q)).
+  Proof.
+    intros Hz. pose proof (Kq_pos ths ls Hls (range_pi ths Hth')) as HK.
+    assert (Hz' : 0 < Kq ls * w_z index spol ppol phis ths ls lp ws wp pp)
+      by (rewrite <- (closing_z index spol ppol phis ths ls lp ws wp pp Hls Hlp Hpp); exact Hz).
+    assert (Hw : 0 < w_z index spol ppol phis ths ls lp ws wp pp) by nra.
+    rewrite (closing_unit index spol ppol phis ths ls lp ws wp pp Hls Hlp (range_pi ths Hth') Hpp (Rgt_not_eq _ _ Hw)).
+    destruct (defined_of_wz index spol ppol phis ths ls lp ws wp pp Hls Hlp (range_pi ths Hth') (Rgt_not_eq _ _ Hw)) as (_ & _ & Hv).
+    unfold idler_old, beam_new; cbn [b_dir]. rewrite beam_new_direction_eq, (sig_theta spol phis ths ls ws (range_pi ths Hth')).
+    unfold sigb at 1, beam_new; cbn [b_phi].
+    rewrite (idler_azimuth_polar phis), polar_phi_pi.
+    destruct (idler_theta_old_neg ths _ (cos_pos_of_range ths Hth') (proj2 Hth) Hv) as [-> ->].
+    rewrite (sqrt_one_minus_val2 index spol ppol phis ths ls lp ws wp pp Hls Hlp (range_pi ths Hth') (Rgt_not_eq _ _ Hw)).
+    rewrite (Rabs_right _ (Rgt_ge _ _ Hw)).
+    unfold vx, vy, vz; cbn [fst snd]. vec_cmp; ring.
+  Qed.
+
+  (* hence it was not parallel to the closing vector whenever the signal index is non-zero *)
+  Lemma C03_parallel_neg_all_old : n_s index spol phis ths ls ws <> 0 -> 0 < vz q -> vcross (b_dir idler_old) q <> vzero.
+  Proof.
+    intros Hn Hz. pose proof (old_idler_mirror Hz) as Hm.
+    pose proof (Kq_pos ths ls Hls (range_pi ths Hth')) as HK.
+    assert (Hz' : 0 < Kq ls * w_z index spol ppol phis ths ls lp ws wp pp)
+      by (rewrite <- (closing_z index spol ppol phis ths ls lp ws wp pp Hls Hlp Hpp); exact Hz).
+    assert (Hw : 0 < w_z index spol ppol phis ths ls lp ws wp pp) by nra.
+    pose proof (closing_unit index spol ppol phis ths ls lp ws wp pp Hls Hlp (range_pi ths Hth') Hpp (Rgt_not_eq _ _ Hw)) as Hu.
+    destruct (closing_nonzero index spol ppol phis ths ls lp ws wp pp Hlp Hls Hpp Hth' (Rgt_not_eq _ _ Hz)) as [Hn2 Hd].
+    destruct Hd as (_ & Ha & _).
+    set (qv := closing_vector index signal pump pp) in *.
+    assert (Hnp : 0 < vnorm qv) by (apply sqrt_lt_R0; exact Hn2).
+    assert (Hqq : qv = vscale (vnorm qv) (vscale (/ vnorm qv) qv)).
+    { destruct qv as [[a b] c]. vec_cmp; field; lra. }
+    set (qh := vscale (/ vnorm qv) qv) in *. set (nq := vnorm qv) in *. clearbody qh nq.
+    intros Hc. rewrite Hm in Hc. rewrite Hqq in Hc. rewrite Hu in Hc.
+    assert (Hx := f_equal vx Hc). assert (Hy := f_equal vy Hc).
+    unfold vcross, vscale, vzero, vx, vy, vz in Hx, Hy; cbn [fst snd] in Hx, Hy.
+    set (a := opt_arg index signal pump pp) in *.
+    set (w := w_z index spol ppol phis ths ls lp ws wp pp) in *.
+    assert (Hsa : 0 < sqrt a) by (apply sqrt_lt_R0; exact Ha).
+    assert (Hwa : 0 < w / sqrt a) by (apply Rdiv_lt_0_compat; assumption).
+    assert (Hv : opt_val index signal pump pp <> 0).
+    { rewrite (opt_val_eq index spol ppol phis ths ls lp ws wp pp (range_pi ths Hth')). fold a. unfold u_t.
+      assert (sin ths < 0) by (apply sin_lt_0_var; pose proof PI_RGT_0; lra).
+      intros E. apply Rmult_integral in E. destruct E as [E|E].
+      - apply Rmult_integral in E. destruct E; lra.
+      - pose proof (Rinv_0_lt_compat _ Hsa). lra. }
+    set (v := opt_val index signal pump pp) in *.
+    set (t := w / sqrt a) in *. clearbody t.
+    assert (Hnt : 0 < nq * t) by (apply Rmult_lt_0_compat; assumption).
+    assert (Hsx : v * sin phis = 0).
+    { apply Rmult_eq_reg_r with (2 * (nq * t)); [|lra]. rewrite Rmult_0_l, <- Hx. ring. }
+    assert (Hcx : v * cos phis = 0).
+    { apply Rmult_eq_reg_r with (- (2 * (nq * t))); [|lra]. rewrite Rmult_0_l, <- Hy. ring. }
+    pose proof (sin2_cos2 phis) as H1. unfold Rsqr in H1.
+    assert (v * v = 0) by (replace (v * v) with ((v * sin phis) * (v * sin phis) + (v * cos phis) * (v * cos phis)) by (rewrite <- (Rmult_1_r (v * v)), <- H1; ring); rewrite Hsx, Hcx; ring).
+    apply Hv. nra.
+  Qed.
+End Old.
+
+(* a concrete witness for the old formula: constant index 3/2, pump wavelength 1, signal wavelength 2, polar angle -1/10 *)
+Lemma C03_parallel_neg_refuted_old :
+  let index := fun (_ : R) (_ : vec) (_ : polarization) => 3 / 2 in
+  0 < vz (closing_vector index (beam_new Ordinary 0 (- (1 / 10)) 2 (1, 1)) (pump_new Ordinary 1 (1, 1)) PPOff) /\
+  vcross (b_dir (idler_old index Type2_e_eo Ordinary Ordinary 0 (- (1 / 10)) 2 1 (1, 1) (1, 1) PPOff))
+         (closing_vector index (beam_new Ordinary 0 (- (1 / 10)) 2 (1, 1)) (pump_new Ordinary 1 (1, 1)) PPOff) <> vzero.
 Proof.
-  intros Hlp Hls Hpp Hth Hz.
-  pose proof (Kq_pos ths ls Hls (range_pi ths Hth)) as HK.
-  assert (Hz' : 0 < Kq ls * w_z index spol ppol phis ths ls lp ws wp pp)
-    by (rewrite <- (closing_z index spol ppol phis ths ls lp ws wp pp Hls Hlp Hpp); exact Hz).
-  assert (Hw : 0 < w_z index spol ppol phis ths ls lp ws wp pp) by nra.
-  rewrite (closing_unit index spol ppol phis ths ls lp ws wp pp Hls Hlp (range_pi ths Hth) Hpp (Rgt_not_eq _ _ Hw)).
-  destruct (defined_of_wz index spol ppol phis ths ls lp ws wp pp Hls Hlp (range_pi ths Hth) (Rgt_not_eq _ _ Hw)) as (_ & Ha & Hv).
-  unfold beam_new at 1; cbn [b_dir]. rewrite beam_new_direction_eq.
-  assert (Hphi : forall t, polar (idler_phi (b_phi (sigb spol phis ths ls ws))) t = polar (phis + PI) t).
-  { intros t. unfold sigb, beam_new; cbn [b_phi]. change beam_new_phi with normalize_angle. rewrite idler_phi_eq.
-    destruct (normalize_angle_congr (normalize_angle phis + PI)) as [k1 H1]. rewrite H1.
-    destruct (normalize_angle_congr phis) as [k2 H2]. rewrite H2.
-    replace (phis + 2 * IZR k2 * PI + PI + 2 * IZR k1 * PI) with (phis + PI + 2 * IZR (k1 + k2) * PI) by (rewrite plus_IZR; ring).
-    replace t with (t + 2 * IZR 0 * PI) at 1 by ring. apply polar_period. }
-  rewrite Hphi, polar_phi_pi. unfold idler_theta_patched.
-  rewrite sin_asin, cos_asin by exact Hv.
-  rewrite (sqrt_one_minus_val2 index spol ppol phis ths ls lp ws wp pp Hls Hlp (range_pi ths Hth) (Rgt_not_eq _ _ Hw)).
-  rewrite (Rabs_right _ (Rgt_ge _ _ Hw)).
-  vec_cmp; ring.
+  intros index.
+  assert (Hth : - (PI / 2) < - (1 / 10) < 0) by (pose proof PI_RGT_0; pose proof PI2_3_2; unfold PI2 in *; lra).
+  assert (Hr : - (1 / 10) <= - (1 / 10) <= 1 / 10) by lra.
+  destruct (nonvacuous_at (- (1 / 10)) Hr) as (_ & Hz & _). split; [exact Hz|].
+  apply (C03_parallel_neg_all_old index Type2_e_eo Ordinary Ordinary 0 (- (1 / 10)) 2 1 (1, 1) (1, 1) PPOff); try lra; try exact I; try exact Hz.
+  unfold n_s, refractive_index, beam_refractive_index, index. lra.
 Qed.
